@@ -1286,7 +1286,7 @@ func (tc *typechecker) checkBuiltinCall(expr *ast.Call) []*typeInfo {
 			}
 			ti := &typeInfo{
 				Type:       complex128Type,
-				Constant:   newComplexConst(re.Constant, im.Constant),
+				Constant:   newComplexConst(re.Constant.real(), im.Constant.real()),
 				Properties: propertyUntyped,
 			}
 			return []*typeInfo{ti}
